@@ -548,6 +548,16 @@ func (m *NodeManager) synchronizeBlocks(ctx context.Context, interrupt <-chan in
 
 	hashes := []bitcoin.Hash32{hash}
 	for {
+		if height <= m.config.StartBlockHeight {
+			// Don't go below the start block height. This must be checked before the previous
+			// block is added in case the latest block is the start block height.
+			logger.InfoWithFields(ctx, []logger.Field{
+				logger.Stringer("block_hash", hash),
+				logger.Int("block_height", height),
+			}, "Reached start block height")
+			break
+		}
+
 		// Get previous header hash
 		previousHash, _ := m.headers.PreviousHash(hash)
 		if previousHash == nil {
@@ -568,14 +578,6 @@ func (m *NodeManager) synchronizeBlocks(ctx context.Context, interrupt <-chan in
 		hash = *previousHash
 		hashes = append([]bitcoin.Hash32{*previousHash}, hashes...)
 		height--
-
-		if height <= m.config.StartBlockHeight {
-			logger.InfoWithFields(ctx, []logger.Field{
-				logger.Stringer("block_hash", hash),
-				logger.Int("block_height", height),
-			}, "Reached start block height")
-			break
-		}
 	}
 
 	startHash := hash
